@@ -589,6 +589,11 @@ fn proc_cpu_seconds(pid: u32) -> Option<f64> {
     Some((ut + st) / 100.0)
 }
 
+fn proc_state(pid: u32) -> Option<char> {
+    let s = std::fs::read_to_string(format!("/proc/{}/stat", pid)).ok()?;
+    s[s.rfind(')')? + 2..].chars().next()
+}
+
 enum Msg {
     Line(usize, String),
     Eof(usize),
@@ -771,8 +776,14 @@ pub fn run_cases(def: &CheckDef, tier: Tier, seed: u64, nworkers: u64, end: Opti
             }
             // a worker is always CPU-bound: no CPU progress for 40 s of wall time inside a case
             // means it is blocked (e.g. a self-deadlock on the library's lock)
-            let blocked = w.last_cpu_change.elapsed() > Duration::from_secs(40) && w.wall_at_marker.elapsed() > Duration::from_secs(40);
-            let stalled = blocked || cpu - w.cpu_at_marker >= def.cpu_limit_s as f64 || w.wall_at_marker.elapsed() > Duration::from_secs(3600.max(def.cpu_limit_s * 10));
+            // (a process that is merely waiting for a CPU on an overloaded machine is in state R and
+            // is not blocked; a failed read of /proc proves nothing either)
+            let state = proc_state(w.child.id());
+            let blocked = w.last_cpu_change.elapsed() > Duration::from_secs(40) && w.wall_at_marker.elapsed() > Duration::from_secs(40) && matches!(state, Some('S') | Some('D'));
+            let over_cpu = cpu - w.cpu_at_marker >= def.cpu_limit_s as f64;
+            let over_wall = w.wall_at_marker.elapsed() > Duration::from_secs(3600.max(def.cpu_limit_s * 10));
+            let stalled = blocked || over_cpu || over_wall;
+            let why = if blocked { "made no CPU progress for 40 s while sleeping (blocked)" } else if over_cpu { "exceeded its CPU limit" } else { "exceeded its wall-clock limit" };
             if stalled {
                 let idx = w.current.unwrap();
                 let _ = w.child.kill();
@@ -788,7 +799,7 @@ pub fn run_cases(def: &CheckDef, tier: Tier, seed: u64, nworkers: u64, end: Opti
                 let case = sub.unwrap_or_else(|| (def.gen)(seed, idx, tier));
                 res.violations.push((
                     idx,
-                    Violation { property: def.id.into(), rule: "hang".into(), site: "process".into(), msg: format!("case {} used more than {} CPU-seconds (or an hour of wall time) and was killed{}", idx, def.cpu_limit_s, if pinpointed { " - the single run in progress was recovered" } else { "" }), step: 0 },
+                    Violation { property: def.id.into(), rule: "hang".into(), site: "process".into(), msg: format!("case {} {} (limits: {} CPU-seconds per case) and was killed{}", idx, why, def.cpu_limit_s, if pinpointed { " - the single run in progress was recovered" } else { "" }), step: 0 },
                     case,
                 ));
                 res.agg.cases += 1;
